@@ -751,10 +751,57 @@ class Graph:
                     cur = frozenset([di])
         return cur
 
+    def _rets_reaching(self, cinst, nid):
+        """return nodes of inlined instance cinst whose control can arrive at node nid without re-entering the
+        instance; None when the instance has a single live return (nothing to distinguish).  Jump threading
+        gives an instance several return nodes, each continuing at a different place in the caller."""
+        if not self._rd_ready:
+            return None
+        key = ('rets', cinst, nid)
+        if key in self._rdcache:
+            return self._rdcache[key]
+        live = self.live()
+        rets = self._rdcache.get(('retnodes', cinst))
+        if rets is None:
+            rets = [n.id for n in self.nodes if n.inst == cinst and n.id in live and n.kind == 'block' and n.term['k'] == 'ret']
+            self._rdcache[('retnodes', cinst)] = rets
+        res = None
+        if len(rets) >= 2:
+            targets = {m for m in self.members(nid) if m in live} or {nid}
+            entry_site = self.site_of(self.insts[cinst].entry)
+            out = []
+            for r in rets:
+                seen = {r}
+                st = [r]
+                found = False
+                while st and not found:
+                    n = st.pop()
+                    for s_ in self.nodes[n].succs:
+                        if s_ in targets:
+                            found = True
+                            break
+                        if s_ in seen or s_ not in live or self.site_of(s_) == entry_site:
+                            continue
+                        seen.add(s_)
+                        st.append(s_)
+                if found:
+                    out.append(r)
+            if out and len(out) < len(rets):
+                res = tuple(sorted(out))
+        self._rdcache[key] = res
+        return res
+
     def ev_local(self, iid, l, at=None):
         key0 = (iid, l)
         rdset = self.reaching(key0, at) if at is not None else None
-        key = (iid, l, rdset)
+        retsel = None
+        if at is not None and at[0] is not None and self._rd_ready:
+            for d_ in self.defs.get(key0) or ():
+                if d_[0] == 'ret':
+                    rr = self._rets_reaching(d_[1], at[0])
+                    if rr is not None:
+                        retsel = (retsel or ()) + ((d_[1], rr),)
+        key = (iid, l, rdset, retsel)
         if key in self._memo:
             return self._memo[key]
         if key in self._onstack:
@@ -773,8 +820,18 @@ class Graph:
                 r = ('undef', iid, l)
         else:
             alts = []
+            rsel = dict(retsel) if retsel else {}
             for d in ds:
-                e = self._ev_def(d)
+                if d[0] == 'ret' and d[1] in rsel:
+                    parts = []
+                    for r_ in rsel[d[1]]:
+                        pe = self.ev_local(d[1], 0, at=(r_, None))
+                        for x in (pe[1] if pe[0] == 'phi' else (pe,)):
+                            if x is not REC and x not in parts:
+                                parts.append(x)
+                    e = REC if not parts else (parts[0] if len(parts) == 1 else ('phi', tuple(parts)))
+                else:
+                    e = self._ev_def(d)
                 if e[0] == 'phi':
                     for x in e[1]:
                         if x not in alts:
